@@ -36,6 +36,10 @@ def check(run):
             args = K.actual_texts(repo.resolve_local(f, 'clifford_rotate'), c)
             run.check('%s.g' % gen in args and '%s.p' % gen in args, 'R6.gen', f, c,
                       'rotate_by must pass both the string and the phase of the generator to the kernel')
+        al = repo.func(rel, 'Pauli.as_list')
+        bind.check_function_calls(run, repo, al, only={'PauliList'})
+        defs = {norm(st.targets[0]): norm(st.value).replace(' ', '') for st, _ in walk(al.node) if isinstance(st, ast.Assign)}
+        run.check('self.g' in defs.get('gs', '') and '[self.p]' in defs.get('ps', ''), 'R6.aslist', al, 'as_list', 'the one-element list carries the string and the phase of the operator (found %s)' % defs)
         f = repo.func(rel, 'Pauli.rotate_by')
         # delegation through as_list(): result fields are written back to self.g / self.p
         srcs = {}
@@ -81,6 +85,7 @@ def check(run):
                repo.func(K.PY_S, 'clifford_rotation_map'), repo.func(K.TC_S, 'clifford_rotation_map'),
                repo.func(K.PY_U, 'clifford_rotate_signless'), repo.func(K.TC_U, 'clifford_rotate_signless')]
     resolve.check_cone(run, repo, entries, 'rotation')
+    run.floor('R6.aslist', 2)
     run.floor('R7c', 2)
     run.floor('R7.guard', 4)
     run.floor('R7.untouched', 6)
